@@ -49,6 +49,9 @@ var matrixData = func() []byte {
 	return d
 }()
 
+// gas of the next program: call trees get more, because a callee that faults takes 63/64 of the gas with it
+var progGas uint64 = gasLimit
+
 var (
 	tr     *vutil.Trace
 	rec    *eu.Recorder
@@ -67,14 +70,32 @@ func toBytes(a []int) []byte {
 
 // runProgram executes code on the real EVM; the recorder emits the steps.
 // It returns the observed end of the outermost call.
+type otherContract struct {
+	ID   int   `json:"id"`
+	Code []int `json:"code"`
+}
+
+type tree struct {
+	Fam    string          `json:"fam"`
+	Code   []int           `json:"code"`
+	Others []otherContract `json:"others"`
+}
+
+// contracts deployed next to the program under test (call trees)
+var extra []otherContract
+
 func runProgram(src string, code, data []byte) (status string, ret []byte) {
 	runID++
 	st := eu.NewState()
+	for _, o := range extra {
+		st.CreateAccount(eu.Addr(o.ID))
+		st.SetCode(eu.Addr(o.ID), toBytes(o.Code))
+	}
 	addr := eu.Addr(1)
 	st.CreateAccount(addr)
 	st.SetCode(addr, code)
 	st.AddBalance(eu.Origin, big.NewInt(1000000))
-	evm := eu.NewEVM(st, height, gasLimit)
+	evm := eu.NewEVM(st, height, progGas)
 	tr.Emit(map[string]interface{}{"event": "Begin", "run": runID, "src": src, "code": eu.ByteInts(code),
 		"data": eu.ByteInts(data), "depth": 1})
 	rec.BeginRun(runID)
@@ -86,7 +107,7 @@ func runProgram(src string, code, data []byte) (status string, ret []byte) {
 				err = fmt.Errorf("panic: %v", p)
 			}
 		}()
-		ret, _, _, err = evm.Call(vm.AccountRef(eu.Origin), addr, data, gasLimit, big.NewInt(0))
+		ret, _, _, err = evm.Call(vm.AccountRef(eu.Origin), addr, data, progGas, big.NewInt(0))
 	}()
 	cls := eu.ErrClass(err)
 	tr.Emit(map[string]interface{}{"event": "End", "run": runID, "depth": 1, "err": cls, "ret": eu.ByteInts(ret),
@@ -816,6 +837,24 @@ func runVectors(dir string, r *rand.Rand, perFile int, shard, shards int, expHea
 
 // ------------------------------------------------------------------- script
 
+// runTrees: TLC-generated call trees (factories that CREATE init codes, parents with sibling sub calls)
+func runTrees(path string) {
+	raw, err := os.ReadFile(path)
+	if err != nil {
+		vutil.Fatalf("read trees: %v", err)
+	}
+	var ts []tree
+	if err := json.Unmarshal(raw, &ts); err != nil {
+		vutil.Fatalf("parse trees: %v", err)
+	}
+	for _, t := range ts {
+		extra, progGas = t.Others, 30000000
+		runProgram("tree-"+t.Fam, toBytes(t.Code), nil)
+		extra, progGas = nil, gasLimit
+		stats["tree_programs"]++
+	}
+}
+
 func runScript(path string) {
 	raw, err := os.ReadFile(path)
 	if err != nil {
@@ -879,6 +918,7 @@ func main() {
 	nsnip := flag.Int("snippets", 12, "snippets per generated program")
 	salt := flag.Int64("salt", 0, "seed salt")
 	script := flag.String("script", "", "TLC-generated programs (json)")
+	trees := flag.String("trees", "", "TLC-generated call trees (json)")
 	vectors := flag.String("vectors", "", "directory of testcases_*.json")
 	perFile := flag.Int("vecperfile", 0, "vectors per file (0 = all)")
 	shard := flag.Int("shard", 0, "vector shard")
@@ -891,11 +931,17 @@ func main() {
 	eu.Boot(*scratch)
 	tr = vutil.NewTrace(*out)
 	// no generated program needs more than a few hundred steps under the reference semantics
-	rec = eu.NewRecorder(tr, eu.Options{Values: true, MaxSteps: 1500, StepBound: true, MaxFaults: 4, HardSteps: 200000})
+	rec = eu.NewRecorder(tr, eu.Options{Values: true, MaxSteps: 1500, StepBound: true, MaxFaults: 8, HardSteps: 200000, Frames: true,
+		MaxFrames: 64, EnterExtra: func(f *vm.VerifFrame) map[string]interface{} {
+			return map[string]interface{}{"code": eu.ByteInts(f.Code), "data": eu.ByteInts(f.Input)}
+		}})
 	rec.Install()
 	r := vutil.Rng(*salt)
 	if *script != "" {
 		runScript(*script)
+	}
+	if *trees != "" {
+		runTrees(*trees)
 	}
 	if *vectors != "" {
 		runVectors(*vectors, r, *perFile, *shard, *shards, *expBudget)
@@ -924,8 +970,8 @@ func main() {
 		faults = append(faults, fmt.Sprintf("%s:%d", c, n))
 	}
 	sort.Strings(faults)
-	fmt.Printf("c10: programs=%d steps=%d events=%d vectors=%d tlc_programs=%d matrix_programs=%d truncated_runs=%d\n", stats["programs"], stats["steps"], tr.N,
-		stats["vectors"], stats["tlc_programs"], stats["matrix_programs"], stats["truncated_runs"])
+	fmt.Printf("c10: programs=%d steps=%d events=%d vectors=%d tlc_programs=%d matrix_programs=%d truncated_runs=%d tree_programs=%d\n", stats["programs"], stats["steps"], tr.N,
+		stats["vectors"], stats["tlc_programs"], stats["matrix_programs"], stats["truncated_runs"], stats["tree_programs"])
 	fmt.Printf("OPS %s\n", strings.Join(ops, " "))
 	fmt.Printf("FAULTS %s\n", strings.Join(faults, " "))
 }
